@@ -25,6 +25,7 @@ import (
 	"bytes"
 	"context"
 	"encoding/json"
+	"errors"
 	"fmt"
 	"io"
 	"math"
@@ -2123,8 +2124,33 @@ type c19RunRes struct {
 	DecErr   string
 }
 
-// c19Vegeta runs `vegeta attack <args> -output <file>` with the targets on stdin.
+// vegeta runs the command; a run whose hits failed because the operating system had no free
+// local port left (other checks' connections in TIME_WAIT) says nothing about vegeta and is
+// repeated after the ports have drained.
 func (e *c19Env) vegeta(id, targets string, args ...string) (r c19RunRes) {
+	for attempt := 0; ; attempt++ {
+		waitForPorts(nil, 8000, 90*time.Second)
+		r = e.vegetaOnce(id, targets, args...)
+		starved := false
+		for i := range r.Results {
+			if portStarved(r.Results[i].Error) {
+				starved = true
+				break
+			}
+		}
+		if !starved {
+			return r
+		}
+		if attempt == 2 {
+			r.Err = errors.New("the operating system has no free local ports (bind: address already in use) - environment, not judged")
+			return r
+		}
+		waitForPorts(nil, 1000, 75*time.Second)
+	}
+}
+
+// vegetaOnce runs `vegeta attack <args> -output <file>` with the targets on stdin.
+func (e *c19Env) vegetaOnce(id, targets string, args ...string) (r c19RunRes) {
 	outf := filepath.Join(e.dir, "out-"+id+".bin")
 	defer os.Remove(outf)
 	r.Argv = append([]string{"attack"}, args...)
